@@ -236,6 +236,7 @@ func (req *SrvReq) process() {
 
 	if flushed {
 		req.Respond()
+		return
 	}
 
 	verifPoint("proc_dispatch", req.Conn, req)
